@@ -37,7 +37,8 @@ REAL = ['pyasn1.codec.streaming (asSeekableStream, CachingStreamWrapper, readFro
         'pyasn1.codec.{ber,cer,der}.decoder', 'CPython io.BytesIO, open(), gzip, zipfile, io.BufferedReader']
 STUB = ['SimPipe / SimFile / RawPipe doubles', 'reference model of a seekable stream (bytes + position + mark)']
 
-KINDS = ['bytesio', 'octetstring', 'any', 'file', 'gzip', 'zip', 'buffered-pipe', 'os-pipe', 'simpipe', 'simfile', 'wrapped-simpipe']
+KINDS = ['bytesio', 'octetstring', 'any', 'file', 'gzip', 'zip', 'bz2', 'lzma', 'buffered-pipe', 'os-pipe', 'simpipe', 'simfile',
+         'wrapped-simpipe']
 
 
 # ---------------------------------------------------------------------------
@@ -148,6 +149,14 @@ def open_kind(kind, b, bufsize=None):
         with gzip.open(path, 'wb', compresslevel=1) as f:
             f.write(b)
         fh = gzip.open(path, 'rb')
+        return Opened(fh, (fh,))
+    if kind in ('bz2', 'lzma'):
+        import importlib
+        mod = importlib.import_module(kind)
+        path = os.path.join(d, 'f.' + kind)
+        with mod.open(path, 'wb') as f:
+            f.write(b)
+        fh = mod.open(path, 'rb')
         return Opened(fh, (fh,))
     if kind == 'zip':
         path = os.path.join(d, 'f.zip')
